@@ -20,7 +20,8 @@
   the same expansion; otherwise the observation is `WORLD-MODEL-DIFFERS`.
   Observation: the resulting fields, hex, comma-separated.
   Spec column: `=<fields>` from the brute-force `specGlobU` when the dumped oracles satisfy `WF`
-  (checked here on the finite dump), `-` otherwise (the theorems assume `WF`).
+  (checked here on the finite dump); otherwise (links, unsearchable directories) from the entry-based
+  brute force `specGlobE` when the dumped listings satisfy `ListingsOK` (`lwfDump`); `-` otherwise.
 -/
 import YashModel.Common.Proto
 import YashModel.Glob.Model
@@ -28,6 +29,7 @@ import YashModel.Glob.Spec
 import YashModel.Glob.Dump
 import YashModel.Glob.World
 import YashModel.Glob.FnMatcher
+import YashModel.Glob.EntrySpec
 open YashModel YashModel.Glob YashModel.Proto
 
 def hexNat (s : String) : Option Nat :=
@@ -170,8 +172,13 @@ def runLine (line : String) : String :=
         let out := expandFields m fs noglob mode fields
         -- `wfDump` implies `WF fs`, `univOf` covers every listing (DumpLemmas.lean): by
         -- `driver_fn_column` the Spec column, when printed, is the declarative Spec of the dump
+        -- wave 3: when the dump is not consistent (links, unsearchable directories) but its listings are
+        -- duplicate-free lists of valid names (`lwfDump`), the Spec column is the entry-based brute force
+        -- `specFieldsE` (`driver_entry_column`: it is the declarative `EntryResult` of the dump)
         let spec :=
-          if wfDump es ls then "=" ++ showFields (specFieldsU m fs univ noglob mode fields) else "-"
+          if wfDump es ls then "=" ++ showFields (specFieldsU m fs univ noglob mode fields)
+          else if lwfDump ls then "=" ++ showFields (specFieldsE m fs univ noglob mode fields)
+          else "-"
         let worldOK :=
           es.all wfs.exist
           && ls.all (fun x => match wfs.list x.1 with
@@ -185,6 +192,9 @@ def runLine (line : String) : String :=
           -- would mean that the dump is not what the world model says (or that the harness asked
           -- about too little)
           pure "GOOD-WORLD-BUT-DUMP-NOT-WF\t-"
+        else if tidyWorld world && !lwfDump ls then
+          -- `listingsOK_fsOfWorld`: the listings of a tidy world are duplicate-free lists of valid names
+          pure "TIDY-WORLD-BUT-LISTINGS-NOT-OK\t-"
         else if !periodDump tab then
           pure "PERIOD-RULE-VIOLATED-BY-MATCH-TABLE\t-"
         else if !tabAgrees cands tab && expandFields mReal fs noglob mode fields == out then
